@@ -577,10 +577,10 @@ class G:
                 return ("ofin", q, st, lo, hi)
             if v < 0.85:
                 return ("ofat", q, st, self.gen_int(min(d - 1, 1), "offset", st[1][0]))
-            p = r.choice([1, 50, 100, 33, 34, 66, 67, 25, 75, 51, 99, 0, 101])
+            p = r.choice([1, 50, 100, 33, 34, 66, 67, 25, 75, 51, 99, 0, 101, -1, 20, 40, 60, 80])
             if r.random() < 0.12:
                 return ("pct", r.choice([("undef", "i"), self.mod("i"), ("read", "u8", self.lit(len(self.c.buf) + 1))]), st)
-            return ("pct", self.lit(p) if p in (0, 101) or r.random() < 0.5 else ("int", p), st)
+            return ("pct", self.lit(p) if p in (0, 101, -1) or r.random() < 0.5 else ("int", p), st)
         if u < 0.86 and self.idx > 0:
             st = self.rset()
             if r.random() < 0.75:
